@@ -86,11 +86,11 @@ typedef enum {
 
 
 /* shifts based on type */
-static const unsigned int tsh[] = {
-	[TYP_I] = 401U,
-	[TYP_II] = 301U,
-	[TYP_III] = 1U,
-	[TYP_IV] = -199U,
+static const int tsh[] = {
+	[TYP_I] = 401,
+	[TYP_II] = 301,
+	[TYP_III] = 1,
+	[TYP_IV] = -199,
 };
 
 /* epochs in julian days */
@@ -111,6 +111,18 @@ ht2mjd(const unsigned int *cal, size_t nm, struct ymd_s h)
 	return MT(cal)[i] + (h.d - 1U);
 }
 
+static inline __attribute__((const, pure)) int
+__hij_y2d(hij_typ_t t, unsigned int y)
+{
+/* days between the epoch and the beginning of year Y, Gent's rule
+ * floor((k * 10631 + shift) / 30) */
+	const int cyc = (int)(y / 30U);
+	const int n = (int)(y % 30U) * 1063100 + (int)tsh[t];
+
+	/* N is negative for type IV at the beginning of a cycle */
+	return cyc * 10631 + (n >= 0 ? n / 3000 : -((2999 - n) / 3000));
+}
+
 static inline __attribute__((const, pure)) mjd_t
 hij2mjd(hij_typ_t t, hij_epo_t e, struct ymd_s h)
 {
@@ -118,9 +130,8 @@ hij2mjd(hij_typ_t t, hij_epo_t e, struct ymd_s h)
 		0U, 0U, 30U, 59U, 89U, 118U, 148U, 177U, 207U, 236U, 266U, 295U, 325U
 	};
 	const unsigned int doy = m[h.m] + h.d;
-	const unsigned int cyc = h.y / 30U;
-	const unsigned int k = h.y % 30U;
-	const unsigned int z1 = cyc * 10631U + (k * 1063100U + tsh[t]) / 3000U + doy;
+	const unsigned int z1 = (unsigned int)__hij_y2d(t, h.y) + doy;
+
 	return z1 + epo[e] - 2400000U;
 }
 
@@ -181,17 +192,21 @@ nil:
 static inline __attribute__((const, pure)) struct ymd_s
 mjd2hij(hij_typ_t t, hij_epo_t e, mjd_t j)
 {
-/* integer only version of Gent's converter */
-	const unsigned int z = j + 2400000U - epo[e];
-	const unsigned int cyc = z / 10631U;
-	const unsigned int z1 = z % 10631U;
-	const unsigned int k = (3000U * z1 - tsh[t]) / 1063100U - !z1;
-	const unsigned int z2 = z1 - (((int)k * 1063100 + tsh[t]) / 3000) + !z1;
-	/* output */
-	const unsigned int y = 30U * cyc + k;
-	const unsigned int m = (10000U * z2 + 285001U) / 295000U;
-	const unsigned int d = z2 - (295001 * m - 290000U) / 10000U;
-	return (struct ymd_s){y, m, d};
+/* inverse of hij2mjd(), find the year whose first day is not after J,
+ * then the month within the year (30, 29, 30, ... days) */
+	const int z = (int)(j + 2400000U - epo[e]);
+	unsigned int y = (unsigned int)((long long int)z * 30 / 10631);
+	unsigned int yd, m;
+
+	for (; y > 0U && __hij_y2d(t, y) >= z; y--);
+	for (; __hij_y2d(t, y + 1U) < z; y++);
+	/* 0-based day of the year */
+	yd = (unsigned int)(z - __hij_y2d(t, y)) - 1U;
+	if ((m = 2U * yd / 59U) > 11U) {
+		/* 30th of the intercalary month */
+		m = 11U;
+	}
+	return (struct ymd_s){y, m + 1U, yd - (m * 59U + 1U) / 2U + 1U};
 }
 
 static __attribute__((pure, const)) unsigned int
@@ -229,10 +244,7 @@ __hij_inty_p(hij_typ_t t, hij_epo_t UNUSED(e), unsigned int y)
  * type II:  2, 5, 7, 10, 13, 16, 18, 21, 24, 26 & 29 as intercalary years
  * type III: 2, 5, 8, 10, 13, 16, 19, 21, 24, 27 & 29 as intercalary years
  * type IV:  2, 5, 8, 11, 13, 16, 19, 21, 24, 27 & 30 as intercalary years */
-	const unsigned int k = y % 30U;
-	const unsigned int z1 = ((k * 1063100U + tsh[t]) / 3000U + 355U) % 10631U;
-	const unsigned int kr = (3000U * z1 - tsh[t]) / 1063100U - !z1;
-	return z1 - (((int)kr * 1063100 + tsh[t]) / 3000) + !z1 != 1;
+	return __hij_y2d(t, y + 1U) - __hij_y2d(t, y) == 355;
 }
 
 static __attribute__((const, pure)) inline unsigned int
